@@ -235,8 +235,8 @@ pub fn replay(args: &[String]) -> i32 {
                 if ob.as_ref().ok() != Some(&exp) {
                     bad += 1;
                     out.line(&json!({"kind": "mismatch", "case": {"case": {"t": "float_individuals", "kind": "score", "a": format!("{}", vals[a]), "b": format!("{}", vals[b]),
-                                     "same_object": std::ptr::eq(ia, ib)}, "exp": format!("{exp:?}")},
-                                     "on": "EcIndividual<Score<f64>> compared as its result", "observed": format!("{ob:?}")}));
+                                     "same_object": std::ptr::eq(ia, ib)}, "exp": {"partial_cmp_lt_le_gt_ge": format!("{exp:?}")}},
+                                     "on": "EcIndividual<Score<f64>> compared as its result", "observed": {"partial_cmp_lt_le_gt_ge": format!("{ob:?}")}}));
                 }
             }
         }
